@@ -6,6 +6,7 @@ package server
 // MemWaiterServerProtocol connections whose result callback records every reply.
 
 import (
+	"github.com/hhkbp2/go-logging"
 	"github.com/snower/slock/protocol"
 )
 
@@ -40,6 +41,8 @@ func vfConfig() *ServerConfig {
 	}
 }
 
+var vfNativeLogger logging.Logger
+
 func vfNewEnv(nprotos int) *vfEnv {
 	vfNoBackground = true // hook (build tag verif): clock, sweepers and persistence channel are driven by the harness
 	cfg := vfConfig()
@@ -47,8 +50,13 @@ func vfNewEnv(nprotos int) *vfEnv {
 	if vfSymbolic() {
 		slock = NewSLock(cfg, nil)
 	} else {
-		logger, _ := InitLogger(cfg)
-		slock = NewSLock(cfg, logger)
+		// one logger for the whole native replay run: InitLogger reconfigures the process-wide root logger
+		// (SetLevel takes its write lock), which must not happen while goroutines left behind by an earlier
+		// case are logging (the logging library's read lock is re-entered while a writer waits: deadlock)
+		if vfNativeLogger == nil {
+			vfNativeLogger, _ = InitLogger(cfg)
+		}
+		slock = NewSLock(cfg, vfNativeLogger)
 	}
 	slock.state = STATE_LEADER
 	db := NewLockDB(slock, 0)
